@@ -419,3 +419,38 @@ Example C13_respond_ex :
   exists s', h_respond ex_cfg s (ex_c, 1, 1, 0) 7 0 0 true true = Ok s'
     /\ get0 7 (earned s') = 95 /\ get0 42 (own_earned s') = 95 /\ bal s' FeeColl = 5.
 Proof. eexists. split; [vm_compute; reflexivity|]. vm_compute. repeat split. Qed.
+
+(* ------------------------------------------------------------------ *)
+(* C15: EndBlock (expiry: slashing; new batches) never creates or removes a binding and
+   changes at most its deposit, availability (only towards "unavailable") and disabled
+   time; definitions, owners, both owner indexes, stored pricing and withdraw addresses
+   are untouched.  The same holds for each per-context handler. *)
+
+Theorem C15_endblock_bindings cfg s dt :
+  let s' := end_block cfg s dt in
+  (forall k, has k (binds s') = has k (binds s))
+  /\ (forall k b, get k (binds s) = Some b ->
+        exists b', get k (binds s') = Some b'
+          /\ b_raw b' = b_raw b /\ b_owner b' = b_owner b /\ b_qos b' = b_qos b
+          /\ (b_avail b' = true -> b_avail b = true))
+  /\ defs s' = defs s /\ owner_of s' = owner_of s /\ own_bind s' = own_bind s
+  /\ own_prov s' = own_prov s /\ pricing s' = pricing s /\ wdaddr s' = wdaddr s
+  /\ earned s' = earned s /\ own_earned s' = own_earned s.
+Proof.
+  cbv zeta. destruct (ff_end_block cfg s dt) as [[F1 F2 F3 F4 F5 F6 Fb] [G1 G2]].
+  split; [intros k; now apply bsim_has|].
+  split.
+  { intros k b Hb. destruct (bsim_get _ _ _ _ Fb Hb) as (b' & E & Hr & Ho & Hav & Hq). eauto 10. }
+  repeat split; assumption.
+Qed.
+
+Theorem C15_expire_one_bindings cfg s c : fframe s (expire_one cfg s c).
+Proof. apply ff_expire_one. Qed.
+
+Theorem C15_new_one_bindings cfg s c : fframe s (new_one cfg s c).
+Proof. apply ff_new_one. Qed.
+
+Example C15_endblock_bindings_ex :
+  let s := run ex_cfg ex_s0 (firstn 6 ex_ops) in
+  binds (end_block ex_cfg s 5) = binds s /\ length (reqs (end_block ex_cfg s 5)) = 3%nat.
+Proof. vm_compute. split; reflexivity. Qed.
